@@ -14,7 +14,8 @@ import lib
 INVS = ["RoundTrip", "ErrorsPersisted", "FaultIsolation", "JoinSplitLaw"]
 
 ASSUMPTIONS = [
-    "lines contain no character that Python treats as a line break; text is valid Unicode (no lone surrogates)",
+    "lines contain no character that Python treats as a line break; text is valid Unicode (no lone surrogates); "
+    "U+FEFF is an ordinary character (atoms f: line starts with it, g: elsewhere)",
     "json, the file system, Python's text-mode line iteration and str.join are trusted; the model's Join / Lines "
     "operators are cross-checked against the interpreter on every data file written (R4)",
     "cmd / args are compared for the kinds that carry a command (command, container command); args compare as "
@@ -51,6 +52,8 @@ def model_jobs(tier):
     all_kinds = '{"text", "raw", "command", "cfile", "ccmd", "datasource"}'
     jobs = [
         ("content", "SerdeMC", "SerdeMC_content.cfg" if q else subst_cfg("SerdeMC_content.cfg", "content.cfg", MaxLines="4"), {}),
+        # content that starts with / contains U+FEFF, every kind
+        ("bom", "SerdeMC", "SerdeMC_bom.cfg" if q else subst_cfg("SerdeMC_bom.cfg", "bom.cfg", MaxLines="3"), {}),
         ("multi", "SerdeMC", "SerdeMC_multi.cfg" if q else subst_cfg("SerdeMC_multi.cfg", "multi.cfg", MaxElems="3"), {}),
         ("faults", "SerdeMC", "SerdeMC_faults.cfg" if q else subst_cfg("SerdeMC_faults.cfg", "faults.cfg", Kinds=all_kinds), {}),
         # every hydration order of three entries under every corruption (model only)
